@@ -514,6 +514,72 @@ Proof.
   exists f. rewrite UW, Hser. auto.
 Qed.
 
+(* ------------------------------------------------------------------ everything together, per game *)
+(* the complete chain for a bin archive: archive value -> image f (C01) -> stored file c (the game's codec by the caller's name:
+   LZ10 for ".cms" / ".cmp" under FE9 / FE10, 0x13-wrapped LZ11 for ".lz" under FE13 - FE15, f itself otherwise) in the top layer at the
+   addressed location -> decompressed by the game's decompressor back to f -> parsed with the game's endianness to a' ~ a *)
+Theorem e2e_archive_by_game_chain mc md ls l g S p loc a S' :
+  fs_new ls l g = FOk S ->
+  wf_archive a -> ser_bound a < 2 ^ 24 -> game_endian_is g (a_endian a) ->
+  write_archive mc S p a loc = (S', FOk tt) ->
+  exists f a' s pp c,
+    BinFormat.serialize mc a = Ok f /\
+    fs_addr S p loc = FOk (s, (pp, false)) /\ l_get (last (layers S') []) pp = Some (File c) /\
+    match g with
+    | FE9 | FE10 => if orb (ends_with sfx_cms p) (ends_with sfx_cmp p)
+                    then valid_stream LayeredFS.LZ10 f c /\ LZDecode.lz10_decompress md c = Ok f else c = f
+    | _ => if ends_with sfx_lz p then valid_stream LayeredFS.LZ13 f c /\ LZDecode.lz13_decompress md c = Ok f else c = f
+    end /\
+    BinFormat.from_bytes (match g with FE9 | FE10 => BE | _ => LE end) f = Ok a' /\
+    read_archive md S' p loc = FOk a' /\ same_archive a a'.
+Proof.
+  intros Hn WF B Hg H. destruct (archive_image mc a WF B) as (f & a' & Hs & Hw & Hl & Hp & R).
+  destruct (typed_helpers_unfold mc md S p loc) as (_ & _ & _ & _ & _ & _ & _ & _ & UW & _).
+  pose proof H as H'. rewrite UW, Hs in H'.
+  destruct (real_read_after_write_by_game mc md ls l g S p f loc S' Hn H' Hw Hl) as (_ & s & pp & c & A & G & V).
+  destruct (e2e_archive_round_trip_by_game mc md ls l g S p loc a S' Hn WF B Hg H) as (f2 & a2 & Hs2 & _ & _ & Ra & R2).
+  rewrite Hs in Hs2. injection Hs2 as <-.
+  exists f, a2, s, pp, c. split; [exact Hs|]. split; [exact A|]. split; [exact G|]. split; [exact V|].
+  split; [|split; [exact Ra | exact R2]].
+  destruct (typed_reads_after_write mc md S p f loc S' H' Hw Hl) as (_ & Ra' & _).
+  rewrite Ra' in Ra. rewrite <- (game_endian ls l g S _ Hn Hg) in Ra.
+  assert (E : a_endian a = match g with FE9 | FE10 => BE | _ => LE end) by (destruct g; cbn in Hg; try exact Hg; contradiction).
+  rewrite <- E. destruct (BinFormat.from_bytes (a_endian a) f) as [x|x|x]; cbn [lift_parse] in Ra; try discriminate.
+  injection Ra as ->. reflexivity.
+Qed.
+
+(* the same chain for a text archive: Shift-JIS / big-endian / LZ10 for FE9 and FE10, UTF-16 / little-endian / LZ13 for FE13 - FE15 *)
+Theorem e2e_text_by_game_chain mc md ls l g S p loc ta S' :
+  fs_new ls l g = FOk S ->
+  wf_text (ta_fmt ta) (ta_map ta) -> wf_text_bytes (ta_fmt ta) (ta_endian ta) (ta_map ta) ->
+  file_bound (TextFormatWrite.text_image (ta_fmt ta) (ta_endian ta) (ta_map ta)) < 2 ^ 24 ->
+  game_text_is g (ta_fmt ta) (ta_endian ta) ->
+  write_text_archive mc S p ta loc = (S', FOk tt) ->
+  exists f s pp c,
+    TextFormat.serialize mc (ta_fmt ta) (ta_endian ta) (ta_map ta) = Ok f /\
+    fs_addr S p loc = FOk (s, (pp, false)) /\ l_get (last (layers S') []) pp = Some (File c) /\
+    match g with
+    | FE9 | FE10 => if orb (ends_with sfx_cms p) (ends_with sfx_cmp p)
+                    then valid_stream LayeredFS.LZ10 f c /\ LZDecode.lz10_decompress md c = Ok f else c = f
+    | _ => if ends_with sfx_lz p then valid_stream LayeredFS.LZ13 f c /\ LZDecode.lz13_decompress md c = Ok f else c = f
+    end /\
+    TextFormat.from_bytes (match g with FE9 | FE10 => TextFormat.ShiftJIS | _ => TextFormat.Unicode end)
+                          (match g with FE9 | FE10 => BE | _ => LE end) f = Ok (parsed (ta_fmt ta) (ta_map ta)) /\
+    read_text_archive md S' p loc = FOk (mkTA (ta_fmt ta) (ta_endian ta) (parsed (ta_fmt ta) (ta_map ta))).
+Proof.
+  intros Hn Hw Hb Hs Hg H. destruct (text_image_bytes mc _ _ _ Hw Hb Hs) as (f & Hser & Hwf & Hl & Hp).
+  destruct (typed_helpers_unfold mc md S p loc) as (_ & _ & _ & _ & _ & _ & _ & _ & _ & UW).
+  pose proof H as H'. rewrite UW, Hser in H'.
+  destruct (real_read_after_write_by_game mc md ls l g S p f loc S' Hn H' Hwf Hl) as (_ & s & pp & c & A & G & V).
+  destruct (e2e_text_round_trip_by_game mc md ls l g S p loc ta S' Hn Hw Hb Hs Hg H) as (f2 & Hs2 & _ & _ & Rt).
+  rewrite Hser in Hs2. injection Hs2 as <-.
+  exists f, s, pp, c. split; [exact Hser|]. split; [exact A|]. split; [exact G|]. split; [exact V|]. split; [|exact Rt].
+  assert (E : ta_fmt ta = match g with FE9 | FE10 => TextFormat.ShiftJIS | _ => TextFormat.Unicode end /\
+              ta_endian ta = match g with FE9 | FE10 => BE | _ => LE end)
+    by (destruct g; cbn in Hg; try exact Hg; contradiction).
+  destruct E as [<- <-]. exact Hp.
+Qed.
+
 (* ------------------------------------------------------------------ non-vacuity *)
 (* FE10 (big-endian, LZ10): the mixed archive of C01's domain example (string, pending c-string, pointer, two labels,
    unaligned data) written to "a.cmp" and read back by the other build profile *)
